@@ -123,25 +123,33 @@ Fixpoint stmts_eqb (a b : list stmt) : bool :=
   end.
 
 (* ====================================================================== sections *)
-(* the statements of one .model ... .end section, split by role *)
-Record section := mkSec {
-  sec_name : str;
-  sec_body : list stmt }.       (* everything between SModel and SEnd, comments dropped *)
-
-Fixpoint split_sections (cur : option section) (ss : list stmt) : list section :=
+(* the names of the models a statement list declares, and the statements of the section(s) of one
+   model: everything between its .model and the next .model (.end, comments dropped) *)
+Fixpoint model_names (ss : list stmt) : list str :=
   match ss with
-  | [] => match cur with Some c => [c] | None => [] end
-  | s :: ss' =>
-    match s, cur with
-    | SModel nm, None => split_sections (Some (mkSec nm [])) ss'
-    | SModel nm, Some c => c :: split_sections (Some (mkSec nm [])) ss'
-    | SEnd, Some c => c :: split_sections None ss'
-    | SComment _, _ => split_sections cur ss'
-    | x, Some c => split_sections (Some (mkSec (sec_name c) (sec_body c ++ [x]))) ss'
-    | _, None => split_sections None ss'
-    end
+  | [] => []
+  | SModel nm :: r => nm :: model_names r
+  | _ :: r => model_names r
   end.
-Definition sections_of (ss : list stmt) : list section := split_sections None ss.
+
+Fixpoint body_of (nm cur : str) (ss : list stmt) : list stmt :=
+  match ss with
+  | [] => []
+  | SModel c :: r => body_of nm c r
+  | SEnd :: r => body_of nm cur r
+  | SComment _ :: r => body_of nm cur r
+  | x :: r => (if str_eqb cur nm then [x] else []) ++ body_of nm cur r
+  end.
+
+(* every statement other than a comment stands between a .model and its .end *)
+Fixpoint well_nested (inside : bool) (ss : list stmt) : bool :=
+  match ss with
+  | [] => true
+  | SModel _ :: r => well_nested true r
+  | SEnd :: r => inside && well_nested false r
+  | SComment _ :: r => well_nested inside r
+  | _ :: r => inside && well_nested inside r
+  end.
 
 (* ---- instances of a section: one per .subckt/.gate/.names/.latch, with the data that follows *)
 Record isig := mkIsig {
@@ -239,24 +247,24 @@ Definition same_wire (m : model) (a b : pinref) : Prop :=
 Definition has_blackbox (body : list stmt) : bool :=
   existsb (fun s => match s with SBlackbox => true | _ => false end) body.
 
-(* ---- what a section says about its model *)
-Record denote_section (n : bnv) (sec : section) : Prop := {
-  ds_model : exists m, find_model (sec_name sec) (b_models n) = Some m;
+(* ---- what the section of model [nm] with statements [body] says about the netlist *)
+Record denote_model (n : bnv) (nm : str) (body : list stmt) : Prop := {
+  ds_model : exists m, find_model nm (b_models n) = Some m;
   (* one instance per statement, in order, with the named definition, the kind and the data *)
-  ds_insts : forall m, find_model (sec_name sec) (b_models n) = Some m ->
-      map isig_of_inst (m_insts m) = spec_insts [] (sec_body sec);
+  ds_insts : forall m, find_model nm (b_models n) = Some m ->
+      map isig_of_inst (m_insts m) = spec_insts [] body;
   (* every definition named by an instance exists *)
-  ds_refs : forall m x, find_model (sec_name sec) (b_models n) = Some m -> In x (m_insts m) ->
+  ds_refs : forall m x, find_model nm (b_models n) = Some m -> In x (m_insts m) ->
       exists r, find_model (i_ref x) (b_models n) = Some r;
   (* connectivity: two pins are on one wire exactly when they are attached to the same net *)
-  ds_nets : has_blackbox (sec_body sec) = false ->
-      forall m, find_model (sec_name sec) (b_models n) = Some m ->
+  ds_nets : has_blackbox body = false ->
+      forall m, find_model nm (b_models n) = Some m ->
       forall a b, same_wire m a b <->
-        exists x y, In (a, x) (spec_attach 0 [] (sec_body sec)) /\ In (b, y) (spec_attach 0 [] (sec_body sec)) /\
-                    same_bit (spec_conns (sec_body sec)) x y;
+        exists x y, In (a, x) (spec_attach 0 [] body) /\ In (b, y) (spec_attach 0 [] body) /\
+                    same_bit (spec_conns body) x y;
   (* black boxes end up as leaf primitives, other models in library work *)
-  ds_lib : forall m, find_model (sec_name sec) (b_models n) = Some m ->
-      if has_blackbox (sec_body sec)
+  ds_lib : forall m, find_model nm (b_models n) = Some m ->
+      if has_blackbox body
       then m_lib m = LPrim /\ m_cables m = [] /\ m_insts m = []
       else m_lib m = LWork
 }.
@@ -278,13 +286,14 @@ Definition spec_dir (body : list stmt) (p : str) : dir :=
   | false, false => DUndef
   end.
 
-Definition denote_dirs (n : bnv) (sec : section) : Prop :=
-  forall m q, find_model (sec_name sec) (b_models n) = Some m -> In q (m_ports m) ->
-    p_dir q = spec_dir (sec_body sec) (p_name q).
+Definition denote_dirs (n : bnv) (nm : str) (body : list stmt) : Prop :=
+  forall m q, find_model nm (b_models n) = Some m -> In q (m_ports m) ->
+    p_dir q = spec_dir body (p_name q).
 
 Definition denote (d : doc) (n : bnv) : Prop :=
   exists ss, grammar d = Some ss /\
-    Forall (fun sec => denote_section n sec /\ denote_dirs n sec) (sections_of ss) /\
+    (forall nm, In nm (model_names ss) ->
+       denote_model n nm (body_of nm [] ss) /\ denote_dirs n nm (body_of nm [] ss)) /\
     (* models that are instanced but never declared are leaf primitives *)
     (forall m, In m (b_models n) -> m_defined m = false -> m_lib m = LPrim /\ m_cables m = [] /\ m_insts m = []).
 
@@ -322,15 +331,21 @@ Definition conn_cables (body : list stmt) : list str :=
 
 Definition reserved (nm : str) : bool := is_prefix k_logic_gate nm || str_eqb nm k_latch_def.
 
-Definition section_ok (sec : section) : bool :=
-  conns_last (sec_body sec) && nodup_strs (conn_cables (sec_body sec)) &&
-  negb (reserved (sec_name sec)) &&
-  forallb (fun s => match s with SSub _ r _ => negb (reserved r) | _ => true end) (sec_body sec).
+(* a black-box section consists of its port lists and .blackbox *)
+Definition bb_shape (body : list stmt) : bool :=
+  negb (has_blackbox body) ||
+  forallb (fun s => match s with SInputs _ | SOutputs _ | SClock _ | SBlackbox => true | _ => false end) body.
+
+Definition body_ok (nm : str) (body : list stmt) : bool :=
+  conns_last body && nodup_strs (conn_cables body) && bb_shape body &&
+  negb (reserved nm) && negb (match nm with [] => true | _ => false end) &&
+  forallb (fun s => match s with SSub _ r _ => negb (reserved r) | _ => true end) body.
 
 Definition supported (d : doc) : bool :=
   match classify d, grammar d with
   | Ok a, Some b =>
-    stmts_eqb a b && forallb section_ok (sections_of b) && nodup_strs (map sec_name (sections_of b))
+    stmts_eqb a b && well_nested false b && nodup_strs (model_names b) &&
+    forallb (fun nm => body_ok nm (body_of nm [] b)) (model_names b)
   | _, _ => false
   end.
 
